@@ -26,7 +26,7 @@ def main():
     m = {
       'version': 1,
       'setup_cmd': 'cd /verif && ./setup.sh',
-      'hooks': {'guard': 'STOCKPYL_VERIF', 'enable': 'the checks export STOCKPYL_VERIF=1 (no hook is currently needed: all observations use public attributes and return values)',
+      'hooks': {'guard': 'STOCKPYL_VERIF', 'enable': 'the checks export STOCKPYL_VERIF=1 (no hook inside /repo is needed: observations use public attributes and return values; the one exception lives in the harness, not in /repo: py/props/c04.py wraps the private function sim._receive_inbound_orders from outside to read the state handed to the ordering loop of multi-product nodes, and reports a broken correspondence if that function disappears)',
                 'baseline_off_cmd': 'cd /repo && env -u STOCKPYL_VERIF /venv/bin/python -m pytest -ra -q -p no:cacheprovider --timeout=900 --continue-on-collection-errors',
                 'source_commits': [], 'add_only': True},
       'engines': [{'name': 'coq-proof+correspondence', 'path': '/verif/check', 'serves_properties': sorted(CLAIMED),
